@@ -85,6 +85,20 @@ def case(defs, vals, dir_="/t"):
     return {"kind": "pre", "defs": defs, "vals": [[k, v] for k, v in dict(vals).items()], "dir": dir_}
 
 
+def rand_ui(rng, ty):
+    """user-interface hints: irrelevant to preprocessing, whichever template they come from (a definition whose own
+    control and constraints do not fit together is filtered out by the callers that redraw until the decoder accepts)"""
+    ctl = {"INT": ["SPIN_BOX", "DROPDOWN_LIST", "HIDDEN"], "FLOAT": ["SPIN_BOX", "DROPDOWN_LIST", "HIDDEN"],
+           "STRING": ["LINE_EDIT", "MULTILINE_EDIT", "DROPDOWN_LIST", "CHECK_BOX", "HIDDEN"],
+           "PATH": ["CHOOSE_INPUT_FILE", "CHOOSE_OUTPUT_FILE", "CHOOSE_DIRECTORY", "DROPDOWN_LIST", "HIDDEN"]}[ty]
+    ui = {"control": rng.choice(ctl)}
+    if rng.random() < 0.3:
+        ui["label"] = "L"
+    if rng.random() < 0.2:
+        ui["groupLabel"] = "G"
+    return ui
+
+
 def rand_def(rng, name):
     ty = rng.choice(["INT", "FLOAT", "STRING", "PATH"])
     bounds, allowed, defaults, _ = POOLS[ty]
@@ -97,6 +111,8 @@ def rand_def(rng, name):
             extra["dataFlow"] = rng.choice(["NONE", "IN", "OUT", "INOUT"])
     if rng.random() < 0.2:
         extra["description"] = "d"
+    if rng.random() < 0.3:
+        extra["userInterface"] = rand_ui(rng, ty)
     return mkdef(name, ty, pick(bounds), pick(bounds), pick(allowed), pick(defaults), extra)
 
 
